@@ -508,5 +508,21 @@ for _n, _f in dict(replace=s_replace, strip=s_strip, lstrip=s_lstrip, rstrip=s_r
                    splitlines=s_splitlines, isupper=s_isupper).items():
     SYM_METHODS[(str, _n)] = _f
     CONC_METHODS[(str, _n)] = _f
+def b_join(sep, parts):
+    parts = list(rt.sx_iter(parts))
+    if not _symarg(sep, *parts):
+        return sep.join(parts)
+    out = []
+    for i, p in enumerate(parts):
+        if pytype(p) is not bytes:
+            raise TypeError("sequence item: expected a bytes-like object")
+        if i:
+            out += rt.bitems(sep)
+        out += rt.bitems(p)
+    return SymBytes(out)
+
+
 SYM_METHODS[(bytes, 'decode')] = b_decode
 SYM_METHODS[(bytes, 'strip')] = b_strip
+SYM_METHODS[(bytes, 'join')] = b_join
+CONC_METHODS[(bytes, 'join')] = b_join
